@@ -132,3 +132,20 @@ package pool
 //@   modifies r.msg.Token, r.msg.Token[0 : cap(r.msg.Token)]
 //@   ensures [nil] token == nil ==> r.msg.Token == nil
 //@   ensures [len] len(r.msg.Token) == len(token)
+//
+// Assumed contracts (unverified here; decoding is C01/C02):
+//
+//@ func (*Message) UnmarshalWithDecoder(decoder Decoder, data []byte) (n int, err error)
+//@   trusted
+//@   requires r != nil
+//@   modifies *r
+//
+//@ func (*Message) SetControlMessage(cm *net.ControlMessage)
+//@   trusted
+//@   requires r != nil
+//@   modifies r.controlMessage
+//
+//@ func (*Message) SetSequence(seq uint64)
+//@   trusted
+//@   requires r != nil
+//@   modifies r.sequence
